@@ -66,7 +66,16 @@ def replay_history(version, hist, enc):
     return s, res
 
 
+ONDEMAND_DOCS = ('xlink-type', 'xlink-attr')      # documents whose validation loads the XLink namespace on demand
+
+
 def key_of(version, hist, got):
+    """One key per history.  Histories in which an earlier call already loaded a namespace on demand and the last
+    call is on a document of that namespace are one known family (the first contact differs from later ones):
+    they are keyed by the last call only, so that the family does not grow with the history depth."""
+    last = hist[-1]
+    if last[1] in ONDEMAND_DOCS and any(e[1] in ONDEMAND_DOCS for e in hist[:-1]):
+        return 'C10 %s after-on-demand-namespace-load %s(%s)' % (version, last[0], last[1])
     return 'C10 %s %s' % (version, ' > '.join('%s(%s)' % ev for ev in hist))
 
 
